@@ -38,6 +38,7 @@ func runC04(c *Ctx) {
 	ruleFlushLoopComplete(c, "C04.14")
 	ruleLogNeverShrinks(c, "C04.15")
 	ruleReplayUnconditional(c, "C04.16")
+	ruleMultiPageRedo(c, "C04.17")
 	// the log append of a statement is in the same bracket as its page changes (otherwise the timer
 	// flush can write an unlogged change and its LSN to the data file)
 	sub := NewCtx("C04", c.W)
